@@ -6,7 +6,7 @@ the real build, and writes evidence/<id>.json.
 usage: vcheck.py <property-id> <quick|thorough> [--keep] [--only <harness>] [--verbose]
 exit 0: every query was decided and no (unlisted) violation was found; exit 1: VIOLATION line printed;
 exit 2: inconclusive / encoding error (never reported as success)."""
-import sys, os, json, subprocess, tempfile, shutil, time, random, hashlib, concurrent.futures as cf
+import sys, os, json, subprocess, tempfile, shutil, time, random, hashlib, concurrent.futures as cf, re, glob
 
 VERIF = os.path.dirname(os.path.abspath(__file__))
 REPO = os.environ.get('VERIF_REPO', '/repo')
@@ -64,6 +64,22 @@ def build_tus(ctx, tus):
         jobs.append(ctx.pool.submit(sh, ['clang++-14'] + IR_FLAGS + [src, '-o', os.path.join(ctx.work, tu + '.bc')]))
         jobs.append(ctx.pool.submit(sh, ['g++'] + NATIVE_FLAGS + ['-c', src, '-o', os.path.join(ctx.work, tu + '.o')]))
     return jobs
+
+def symbol_index(ctx):
+    """mangled name of every function defined in /repo/src/*.cc -> translation unit (built on demand: all files to IR, llvm-nm)"""
+    if getattr(ctx, 'symidx', None) is not None: return ctx.symidx
+    d = os.path.join(ctx.work, 'symidx'); os.makedirs(d, exist_ok=True)
+    srcs = sorted(glob.glob(os.path.join(REPO, 'src', '*.cc')))
+    jobs = [(os.path.basename(f)[:-3], ctx.pool.submit(sh, ['clang++-14'] + IR_FLAGS + [f, '-o', os.path.join(d, os.path.basename(f)[:-3] + '.bc')])) for f in srcs]
+    idx = {}
+    for tu, j in jobs:
+        if j.result().returncode != 0: continue
+        r = sh(['llvm-nm-14', '--defined-only', os.path.join(d, tu + '.bc')])
+        for l in r.stdout.splitlines():
+            parts = l.split()
+            if len(parts) >= 2 and parts[-2] in ('T', 't') and parts[-1].startswith('_Z'): idx.setdefault(parts[-1], tu)   # strong definitions only
+    ctx.symidx = idx
+    return idx
 
 def wait_ok(jobs, what):
     for j in jobs:
@@ -220,7 +236,7 @@ def main():
     t0 = time.time()
     ctx = Ctx(pid, tier, keep, verbose)
     known = [k for k in json.load(open(os.path.join(VERIF, 'known_findings.json')))['findings'] if k['property'] == pid and k.get('status') == 'open']
-    rc_final = 0; violations = []; inconclusive = []; known_hits = []; queries = []; val_samples = []; val_runs = 0; replays = 0; selftests = []
+    rc_final = 0; violations = []; inconclusive = []; known_hits = []; queries = []; val_samples = []; val_runs = 0; replays = 0; selftests = []; tus_added = {}
     try:
         if not os.path.exists(ENGINE):
             r = sh(['sh', os.path.join(VERIF, 'engine', 'vsymex', 'build.sh')])
@@ -270,6 +286,27 @@ def main():
                 except OSError: pass
             return item, tag, res
         results = list(ctx.pool.map(do, plan))
+        # ---- translation-unit closure: a query that stopped at a call into a libvata function whose translation unit is not in
+        # the harness's list (the sources changed and now call into another file) is not a verdict; the defining translation
+        # units are looked up in an index over all of /repo/src, added (IR and native twin), and the query is run again
+        for _round in range(3):
+            need = {}
+            for i, ((h, cfg, role), tag, res) in enumerate(results):
+                if res['rc'] == 2 or res['json'] is None:
+                    m = re.search(r'call to unmodelled external function .*?\[(_ZN?K?4VATA\w+)\]', res['stdout'])
+                    if m: need.setdefault(h['name'], (h, set(), []))[1].add(m.group(1)); need[h['name']][2].append(i)
+            if not need: break
+            idx = symbol_index(ctx)
+            progressed = False
+            for hn, (h, syms, idxs) in need.items():
+                add = sorted(set(idx[sy] for sy in syms if sy in idx) - set(h['tus']))
+                if not add: continue
+                if not wait_ok(build_tus(ctx, add), 'added translation units'): continue
+                h['tus'] = list(h['tus']) + add; tus_added.setdefault(hn, []).extend(add); progressed = True
+                ctx.note('harness %s: translation units added after an unresolved call: %s' % (hn, ', '.join(add)))
+                redo = list(ctx.pool.map(do, [results[i][0] for i in idxs]))
+                for i, r in zip(idxs, redo): results[i] = r
+            if not progressed: break
         # ---- translation validation (first main config of every harness)
         nval = int(os.environ.get('VERIF_VALRUNS', spec.get('val_runs', {}).get(tier, '12' if tier == 'quick' else '40')))
         done_val = set(); vjobs = []
@@ -363,7 +400,7 @@ def main():
                 'checks_decided_by_normal_form': sum(q['checks_decided_by_normal_form'] for q in main_q), 'checks_decided_by_smt': sum(q['checks_decided_by_smt'] for q in main_q),
                 'smt_queries': sum(q['smt_queries'] for q in queries), 'smt_seconds': round(sum(q['smt_s'] for q in queries), 3), 'engine_seconds': round(sum(q['wall_s'] for q in queries), 2),
                 'functions_encoded': sorted(set(f for q in main_q for f in q['functions']))[:400],
-                'translation_units': sorted(set(t for h in harnesses for t in h['tus'])),
+                'translation_units': sorted(set(t for h in harnesses for t in h['tus'])), 'translation_units_added_after_unresolved_calls': tus_added,
                 'bounds': spec.get('bounds', {}).get(tier, spec.get('bounds', {}).get('quick', '')), 'outside_bounds': spec.get('outside', ''),
                 'longest_path_instructions': max([q.get('max_path_steps', 0) for q in queries] or [0]), 'path_limit_instructions': 100000000,
                 'selftests': selftests, 'known_findings_reproduced': [k[0] for k in known_hits], 'inconclusive': inconclusive[:10],
